@@ -70,7 +70,7 @@ def cases(draw, max_gaps=11):
     v, pu, du = draw(st.sampled_from(CONFIGS))
     tol = draw(st.sampled_from(TOLS))
     ng = draw(st.sampled_from([0, 1, 1, 2, 2, 3, 3, 4, 5, 6, 8, max_gaps]))
-    kpool = st.one_of(st.sampled_from([-15, -8, -4, -2, -1, 0, 0, 0, 1, 2, 3, 4, 8, 16, 17, 32]), st.integers(-15, 32))
+    kpool = st.one_of(st.sampled_from([-16, -15, -8, -4, -2, -1, 0, 0, 0, 1, 2, 3, 4, 8, 16, 17, 32]), st.integers(-16, 32))       # -16: the time stamp is repeated (gap 0)
     ks = [draw(kpool) for _ in range(ng)]
     t0k = draw(st.sampled_from([0, 0, 1, 4, 40, -8]))
     mode = draw(st.sampled_from(['online', 'offline']))
@@ -153,7 +153,7 @@ def exhaustive(tier, seed, shard=0, nshards=1):
     """All sequences of <= 3 (thorough 4) gaps over a boundary-heavy set x all configurations x tolerances x modes."""
     stats = Stats()
     fails = {}
-    kset = [-15, -2, -1, 0, 1, 2, 3, 4, 8, 16, 32]
+    kset = [-16, -15, -2, -1, 0, 1, 2, 3, 4, 8, 16, 32]
     maxg = 3 if tier == 'quick' else 4
     cfgs = CONFIGS if tier == 'thorough' else [c for c in CONFIGS if c[0] in (1, 250, 500)]
     combos = [(c, tol, mode) for c in cfgs for tol in TOLS for mode in ('online', 'offline')]
@@ -187,7 +187,7 @@ def epoch_cases(draw):
     pv, pu = draw(st.sampled_from([(1, 'ms'), (500, 'us'), (16, 'us'), (1, 's'), (100, 'ms')]))
     tol = draw(st.sampled_from(TOLS))
     ng = draw(st.sampled_from([1, 2, 3, 5, 8, 12]))
-    ks = [draw(st.sampled_from([-15, -2, -1, 0, 0, 0, 1, 2, 3, 4, 8, 16, 17, 32])) for _ in range(ng)]
+    ks = [draw(st.sampled_from([-16, -15, -2, -1, 0, 0, 0, 1, 2, 3, 4, 8, 16, 17, 32])) for _ in range(ng)]
     t0 = draw(st.sampled_from([1700000000000000000, 1700000000123456789, 2 ** 53 + 1, 2 ** 60 + 12345, 9007199254740993]))
     return {'period': [pv, pu], 'tol': tol, 'ks': ks, 't0': t0, 'mode': draw(st.sampled_from(['online', 'offline'])),
             'x': [draw(st.integers(-4, 8)) / 2.0 for _ in range(ng + 1)], 'y': [draw(st.integers(-4, 8)) / 2.0 for _ in range(ng + 1)]}
@@ -284,4 +284,4 @@ LANES = [
     Lane('exhaustive', None, check, 1, 1, None, custom=exhaustive, shards=16),
 ]
 
-EXTRA_COVERAGE = {'exhaustive_lane': 'all gap sequences up to length 2 (thorough: 3) over k in {-15,-2,-1,0,1,2,3,4,8,16,32}/16, length 3 (thorough: 4, for 36 configurations) over a 6 (7) element subset, x %d unit configurations x %d tolerances x online/offline' % (len(CONFIGS), len(TOLS))}
+EXTRA_COVERAGE = {'exhaustive_lane': 'all gap sequences up to length 2 (thorough: 3) over k in {-16,-15,-2,-1,0,1,2,3,4,8,16,32}/16 (-16: a repeated time stamp), length 3 (thorough: 4, for 36 configurations) over a 6 (7) element subset, x %d unit configurations x %d tolerances x online/offline' % (len(CONFIGS), len(TOLS))}
